@@ -27,7 +27,7 @@
      Combined      vehicle: fold (Cost::new(state)) (fun acc f => f.map_value acc);  network: fold ZERO (+)
      traversal_cost  esp (vehicle + network)            access_cost  esp (vehicle + network_access)
      edge_cost       esp ((vehicle + network) + network_access)       cost_estimate  enn vehicle
-     EdgeTraversal   access = ZERO + access_cost;  traversal = total - access;  total_cost() = access + traversal
+     EdgeTraversal   access = ZERO + access_cost;  traversal = total - access;  total_cost() = esp (access + traversal)
 
    A state vector shorter than the state model gives Err StateIndexOutOfBounds (the only failure the vectors
    built by CostModel::new allow: weights, vehicle rates and network rates always have one entry per feature).
@@ -211,8 +211,8 @@ Section Model.
                  end;
     do total <- edge_cost cm (edge_pair this other d) this p st;
     Ok (access, sub total access).
-  (* EdgeTraversal::total_cost *)
-  Definition total_cost (et : N * N) : N := add (fst et) (snd et).
+  (* EdgeTraversal::total_cost: the floor is enforced on the sum of the two shares as well *)
+  Definition total_cost (et : N * N) : N := enforce_strictly_positive (add (fst et) (snd et)).
 End Model.
 
 Arguments cost_zero N : assert. Arguments cost_one N : assert. Arguments min_cost N : assert.
